@@ -176,6 +176,197 @@ theorem one_refresh (kinds : Pid → Kind) (g0 : Nat) (ps : List Pid) :
     | cons p ps ih => intro s hi hk; exact ih _ (inv_step s p hi) (one_step s p hi hk)
   exact (this ps _ (inv_init kinds g0) (one_init kinds g0)).len
 
+/-- ranges for ONE process: every token generation it carries lies between the generation the schedule started with (`b`) and the provider's current one (`cur`) -/
+def POk (b cur : Nat) (x : Proc) : Prop :=
+  (x.pc = .idp → b ≤ x.rt ∧ x.rt ≤ cur) ∧ (x.pc = .update → b ≤ x.newGen ∧ x.newGen ≤ cur) ∧
+  (∀ g, x.seen = some g → b ≤ g ∧ g ≤ cur) ∧ (∀ g, x.served = some g → b ≤ g ∧ g ≤ cur)
+
+theorem POk_mono {b cur cur' : Nat} {x : Proc} (h : cur ≤ cur') (k : POk b cur x) : POk b cur' x := by
+  obtain ⟨k1, k2, k3, k4⟩ := k
+  refine ⟨fun e => ?_, fun e => ?_, fun g e => ?_, fun g e => ?_⟩
+  · have := k1 e; omega
+  · have := k2 e; omega
+  · have := k3 g e; omega
+  · have := k4 g e; omega
+
+/-- ranges: every token generation that appears anywhere - stored, read, carried by a process, handed to the upstream - lies between the generation the schedule
+    started with and the provider's current one, and the provider's current one has advanced exactly once per presentation -/
+structure RInv (s : St) : Prop where
+  count : s.idpCur = s.base + s.presented.length
+  sessR : ∀ v, s.sess = some v → v.owner = 0 → s.base ≤ v.gen ∧ v.gen ≤ s.idpCur
+  procsR : ∀ q, POk s.base s.idpCur (s.procs q)
+
+theorem rinv_init (kinds : Pid → Kind) (g0 : Nat) : RInv (init kinds g0) := by
+  refine ⟨by simp [init], by simp [init], fun q => ?_⟩
+  simp [init, POk]
+
+theorem servedAtGet_some {k : Kind} {se : Option Sess} {g : Nat} (h : servedAtGet k se = some g) : ∃ v, se = some v ∧ v.gen = g := by
+  unfold servedAtGet at h
+  split at h
+  · rename_i v
+    split at h <;> simp_all
+  · simp at h
+
+/-- one process `p` gets the new record `x'`, everybody else is untouched, the provider's generation does not go down -/
+theorem procs_ok_of (s : St) (p : Pid) (x' : Proc) (cur' : Nat) (r : RInv s) (hc : s.idpCur ≤ cur') (hx : POk s.base cur' x') :
+    ∀ q, POk s.base cur' ((setProc s p x').procs q) := by
+  intro q
+  by_cases hq : q = p
+  · subst hq; simpa using hx
+  · rw [setProc_other s p q x' hq]; exact POk_mono hc (r.procsR q)
+
+theorem rinv_step (s : St) (p : Pid) (h : Inv s) (r : RInv s) : RInv (step s p).1 := by
+  have r1 := r.count
+  have r2 := r.sessR
+  obtain ⟨q1, q2, q3, q4⟩ := r.procsR p
+  unfold step
+  simp only []
+  split
+  · -- start
+    rename_i hpc
+    have hn := startNext_outside (s.procs p).kind
+    refine ⟨by simpa using r1, by simpa using r2, ?_⟩
+    simp only [setProc_base, setProc_idpCur]
+    apply procs_ok_of s p _ s.idpCur r (Nat.le_refl _)
+    refine ⟨fun e => ?_, fun e => ?_, q3, q4⟩ <;> (simp at e; rcases hn with hn | hn | hn <;> simp [hn] at e)
+  · -- get: what is read is the stored, readable session
+    rename_i hpc
+    have hn := getNext_outside (s.procs p).kind (mine s.sess)
+    refine ⟨by simpa using r1, by simpa using r2, ?_⟩
+    simp only [setProc_base, setProc_idpCur]
+    apply procs_ok_of s p _ s.idpCur r (Nat.le_refl _)
+    refine ⟨fun e => ?_, fun e => ?_, fun g e => ?_, fun g e => ?_⟩
+    · simp at e; rcases hn with hn | hn | hn <;> simp [hn] at e
+    · simp at e; rcases hn with hn | hn | hn <;> simp [hn] at e
+    · cases hm : mine s.sess with
+      | none => simp [hm] at e
+      | some v =>
+        have hv := mine_some hm
+        simp [hm] at e
+        have := r2 v hv.1 hv.2
+        omega
+    · obtain ⟨v, hv, hgv⟩ := servedAtGet_some e
+      have hv' := mine_some hv
+      have := r2 v hv'.1 hv'.2
+      omega
+  · -- code
+    refine ⟨by simpa using r1, by simpa using r2, ?_⟩
+    simp only [setProc_base, setProc_idpCur]
+    apply procs_ok_of s p _ s.idpCur r (Nat.le_refl _)
+    refine ⟨fun e => ?_, fun e => ?_, q3, q4⟩ <;> (simp at e; split at e <;> simp at e)
+  · -- lock
+    split
+    · refine ⟨by simpa using r1, by simpa using r2, ?_⟩
+      simp only [setProc_base, setProc_idpCur]
+      apply procs_ok_of s p _ s.idpCur r (Nat.le_refl _)
+      refine ⟨fun e => ?_, fun e => ?_, q3, q4⟩ <;> (simp at e; split at e <;> simp at e)
+    · exact r
+  · -- write: a new login's session is not "the" session (owner ≠ 0)
+    refine ⟨by simpa using r1, ?_, ?_⟩
+    · intro v hv ho; simp at hv; rw [← hv] at ho; simp at ho
+    · simp only [setProc_base, setProc_idpCur]
+      apply procs_ok_of s p _ s.idpCur r (Nat.le_refl _)
+      refine ⟨fun e => ?_, fun e => ?_, q3, q4⟩ <;> (simp at e; split at e <;> simp at e)
+  · -- reread
+    split
+    · refine ⟨by simpa using r1, by simpa using r2, ?_⟩
+      simp only [setProc_base, setProc_idpCur]
+      apply procs_ok_of s p _ s.idpCur r (Nat.le_refl _)
+      refine ⟨fun e => ?_, fun e => ?_, q3, fun g e => ?_⟩
+      · simp at e
+      · simp at e
+      · simp at e; exact q3 g e.2
+    · rename_i v hv
+      have hm := mine_some hv
+      have hr := r2 v hm.1 hm.2
+      split
+      · refine ⟨by simpa using r1, by simpa using r2, ?_⟩
+        simp only [setProc_base, setProc_idpCur]
+        apply procs_ok_of s p _ s.idpCur r (Nat.le_refl _)
+        refine ⟨fun e => ?_, fun e => ?_, q3, fun g e => ?_⟩
+        · simp at e
+        · simp at e
+        · simp at e; have := e.2; omega
+      · refine ⟨by simpa using r1, by simpa using r2, ?_⟩
+        simp only [setProc_base, setProc_idpCur]
+        apply procs_ok_of s p _ s.idpCur r (Nat.le_refl _)
+        refine ⟨fun _ => ?_, fun e => ?_, q3, q4⟩
+        · simpa using hr
+        · simp at e
+  · -- idp: by the invariant the token presented is the provider's current one, so the grant succeeds and the provider advances by one
+    rename_i hpc
+    have hrt := h.atIdp p hpc
+    simp only [hrt, if_true]
+    refine ⟨?_, ?_, ?_⟩
+    · simp; omega
+    · intro v hv ho; have := r2 v (by simpa using hv) ho; simp; omega
+    · simp only [setProc_base]
+      show ∀ q, POk s.base (s.idpCur + 1) ((setProc { s with presented := s.presented ++ [s.idpCur] } p _).procs q)
+      intro q
+      by_cases hq : q = p
+      · subst hq
+        simp only [setProc_same]
+        refine ⟨fun e => ?_, fun _ => ?_, fun g e => ?_, fun g e => ?_⟩
+        · simp at e
+        · simp; omega
+        · have := q3 g e; omega
+        · have := q4 g e; omega
+      · rw [setProc_other _ p q _ hq]; exact POk_mono (Nat.le_succ _) (r.procsR q)
+  · -- update
+    rename_i hpc
+    have hnew := q2 hpc
+    split
+    · refine ⟨by simpa using r1, ?_, ?_⟩
+      · intro v hv ho; simp at hv; rw [← hv]; simpa using hnew
+      · simp only [setProc_base, setProc_idpCur]
+        apply procs_ok_of s p _ s.idpCur r (Nat.le_refl _)
+        refine ⟨fun e => ?_, fun e => ?_, q3, fun g e => ?_⟩
+        · simp at e
+        · simp at e
+        · simp at e; have := e.2; omega
+    · refine ⟨by simpa using r1, by simpa using r2, ?_⟩
+      simp only [setProc_base, setProc_idpCur]
+      apply procs_ok_of s p _ s.idpCur r (Nat.le_refl _)
+      refine ⟨fun e => ?_, fun e => ?_, q3, fun g e => ?_⟩
+      · simp at e
+      · simp at e
+      · simp at e; exact q3 g e.2
+  · -- unlock
+    refine ⟨by simpa using r1, by simpa using r2, ?_⟩
+    simp only [setProc_base, setProc_idpCur]
+    apply procs_ok_of s p _ s.idpCur r (Nat.le_refl _)
+    refine ⟨fun e => ?_, fun e => ?_, q3, q4⟩ <;> simp at e
+  · -- del
+    refine ⟨by simpa using r1, by intro v hv; simp at hv, ?_⟩
+    simp only [setProc_base, setProc_idpCur]
+    apply procs_ok_of s p _ s.idpCur r (Nat.le_refl _)
+    refine ⟨fun e => ?_, fun e => ?_, q3, q4⟩ <;> simp at e
+  · exact r
+
+/-- **every concurrent request is served with the previous or the new access token**: whatever the schedule and however many requests race, a proxied request that
+    hands a token to the upstream hands the one the schedule started with or the one the (single) refresh of this schedule produced - never anything else -/
+theorem served_previous_or_new (kinds : Pid → Kind) (g0 : Nat) (ps : List Pid) (p : Pid) (g : Nat) :
+    let s := ps.foldl (fun s p => (step s p).1) (init kinds g0)
+    (s.procs p).served = some g → g = g0 ∨ g = g0 + 1 := by
+  intro s hg
+  have key : ∀ (l : List Pid) (t : St), Inv t → OneInv t → RInv t → t.base = g0 →
+      let u := l.foldl (fun s p => (step s p).1) t
+      Inv u ∧ OneInv u ∧ RInv u ∧ u.base = g0 := by
+    intro l
+    induction l with
+    | nil => intro t a b c d; exact ⟨a, b, c, d⟩
+    | cons q qs ih =>
+      intro t a b c d
+      have hb : (step t q).1.base = g0 := by
+        rw [← d]; unfold step; simp only []; split <;> (repeat' split) <;> simp
+      exact ih _ (inv_step t q a) (one_step t q a b) (rinv_step t q a c) hb
+  obtain ⟨_, ho, hr, hbase⟩ := key ps _ (inv_init kinds g0) (one_init kinds g0) (rinv_init kinds g0) rfl
+  have h1 := (hr.procsR p).2.2.2 g hg
+  have h2 := hr.count
+  have h3 := ho.len
+  rw [hbase] at h1 h2
+  omega
+
 /-- every presentation is accepted by the provider (the token presented is the current one): no request is logged out by a lost race -/
 theorem every_grant_succeeds (s : St) (p : Pid) (h : Inv s) (hpc : (s.procs p).pc = .idp) : ((step s p).1.procs p).pc = .update := by
   have hrt := h.atIdp p hpc
